@@ -9,9 +9,6 @@ Open Scope Z_scope.
 
 (* ---------------- generic ---------------- *)
 
-Lemma iret_ok {A} (a : A) i : iret a i = Ok (a, i).
-Proof. reflexivity. Qed.
-
 (* a field that lies inside a prefix does not depend on what follows *)
 Lemma field_prefix (a r : list bool) off w : (off + w <= length a)%nat ->
   field (a ++ r) off w = field a off w.
@@ -23,9 +20,6 @@ Qed.
 
 Lemma located_head bs k b r : located bs k (b :: r) -> located bs k [b].
 Proof. intros H. change (b :: r) with ([b] ++ r) in H. apply located_app in H. apply H. Qed.
-
-Lemma located_shift bs k k' a : located bs k a -> k = k' -> located bs k' a.
-Proof. intros H <-. exact H. Qed.
 
 (* ---------------- the packet header ---------------- *)
 
